@@ -96,6 +96,16 @@ type inst struct {
 	Spd    bool      `json:"spd"`
 	Tri    bool      `json:"tri"`
 	Items  []nrmItem `json:"items"` // nrm
+	// families of specs/lapack/PlantedC.tla (complete pivoting)
+	Jpiv   []int   `json:"jpiv"`
+	MaxA   int64   `json:"maxA"`   // max |A[i][j]| (times den)
+	BigExp int     `json:"bigexp"` // c2: exponent of the scaled right-hand sides of Dgesc2
+	Rd     [][]int `json:"rd"`     // c2: incoming (rdsum, log2 rdscal) pairs of Dlatdf
+	Res [][]imat `json:"res"` // tdm: <<alpha, beta>>, alpha*A*B + beta*C, alpha*A^T*B + beta*C
+	Ea  int      `json:"ea"`  // rscl: a = sg * 2^ea, x = xi * 2^ex
+	Ex  int      `json:"ex"`
+	Sg  int      `json:"sg"`
+	Xi  []int64  `json:"xi"`
 	// workspace contract
 	Routine string `json:"routine"`
 	Class   string `json:"class"`
